@@ -61,4 +61,424 @@ theorem evalCond_cmp (L : LikeFn) (d : Dialect) (env : SEnv) (op : CmpOp) (a b :
   rename_i va vb
   cases cmpVals op va vb <;> simp
 
+
+theorem evalCond_not (L : LikeFn) (d : Dialect) (env : SEnv) (a : Sql) :
+    evalCond L d env (.not a) = (evalCond L d env a).map K.not := by
+  simp only [evalCond, eval]
+  cases (eval L d env a).bind (toCond d) <;> simp
+
+def evalAnd (L : LikeFn) (d : Dialect) (env : SEnv) (xs : SqlList) : Option K := (evalAll L d env xs).map (fun ks => ks.foldl K.and .tt)
+def evalOr (L : LikeFn) (d : Dialect) (env : SEnv) (xs : SqlList) : Option K := (evalAll L d env xs).map (fun ks => ks.foldl K.or .ff)
+
+theorem evalCond_and (L : LikeFn) (d : Dialect) (env : SEnv) (xs : SqlList) : evalCond L d env (.and xs) = evalAnd L d env xs := by
+  simp only [evalCond, eval, evalAnd]; cases evalAll L d env xs <;> simp
+theorem evalCond_or (L : LikeFn) (d : Dialect) (env : SEnv) (xs : SqlList) : evalCond L d env (.or xs) = evalOr L d env xs := by
+  simp only [evalCond, eval, evalOr]; cases evalAll L d env xs <;> simp
+
+theorem evalAll_cons (L : LikeFn) (d : Dialect) (env : SEnv) (h : Sql) (t : SqlList) :
+    evalAll L d env (.cons h t) = match evalCond L d env h, evalAll L d env t with
+      | some k, some ks => some (k :: ks)
+      | _, _ => none := by
+  simp only [evalAll, evalCond]
+  cases (eval L d env h).bind (toCond d) <;> cases evalAll L d env t <;> rfl
+
+theorem evalAll_append (L : LikeFn) (d : Dialect) (env : SEnv) (ys : SqlList) : (xs : SqlList) →
+    evalAll L d env (xs.append ys) = match evalAll L d env xs, evalAll L d env ys with
+      | some a, some b => some (a ++ b)
+      | _, _ => none
+  | .nil => by simp [SqlList.append, evalAll]; cases evalAll L d env ys <;> simp
+  | .cons h t => by
+    have ih := evalAll_append L d env ys t
+    simp only [SqlList.append, evalAll_cons, ih]
+    cases evalCond L d env h <;> cases evalAll L d env t <;> cases evalAll L d env ys <;> simp
+
+theorem evalAnd_append (L : LikeFn) (d : Dialect) (env : SEnv) (xs ys : SqlList) :
+    evalAnd L d env (xs.append ys) = match evalAnd L d env xs, evalAnd L d env ys with
+      | some a, some b => some (K.and a b)
+      | _, _ => none := by
+  simp only [evalAnd, evalAll_append]
+  cases evalAll L d env xs <;> cases evalAll L d env ys <;> simp
+  rw [foldl_and_init]
+
+theorem evalOr_append (L : LikeFn) (d : Dialect) (env : SEnv) (xs ys : SqlList) :
+    evalOr L d env (xs.append ys) = match evalOr L d env xs, evalOr L d env ys with
+      | some a, some b => some (K.or a b)
+      | _, _ => none := by
+  simp only [evalOr, evalAll_append]
+  cases evalAll L d env xs <;> cases evalAll L d env ys <;> simp
+  rw [foldl_or_init]
+
+theorem evalAnd_single (L : LikeFn) (d : Dialect) (env : SEnv) (x : Sql) : evalAnd L d env (.cons x .nil) = evalCond L d env x := by
+  simp only [evalAnd, evalAll_cons]; cases evalCond L d env x <;> simp [evalAll]
+theorem evalOr_single (L : LikeFn) (d : Dialect) (env : SEnv) (x : Sql) : evalOr L d env (.cons x .nil) = evalCond L d env x := by
+  simp only [evalOr, evalAll_cons]; cases evalCond L d env x <;> simp [evalAll]
+
+theorem evalOr_pair (L : LikeFn) (d : Dialect) (env : SEnv) (x y : Sql) :
+    evalOr L d env (.cons x (.cons y .nil)) = match evalCond L d env x, evalCond L d env y with
+      | some a, some b => some (K.or a b)
+      | _, _ => none := by
+  simp only [evalOr, evalAll_cons]; cases evalCond L d env x <;> cases evalCond L d env y <;> simp [evalAll]
+
+/-! ### encoding of Python values -/
+
+@[simp] theorem encV_none (d : Dialect) : encV d none = .null := rfl
+theorem encS_ne_null (d : Dialect) (x : Scalar) : encS d x ≠ .null := by
+  cases x <;> simp [encS]; split <;> simp
+theorem encV_eq_null (d : Dialect) (v : Option Scalar) : (encV d v == .null) = (v == none) := by
+  cases v with
+  | none => rfl
+  | some x => simp [encV]; exact encS_ne_null d x
+
+def hasTy : Ty → Scalar → Prop
+  | .int, .int _ => True
+  | .bool, .bool _ => True
+  | .str, .str _ => True
+  | _, _ => False
+
+/-- the row and the parameters carry values of the declared types; only nullable attributes may be missing -/
+structure WT (sch : Schema) (env : PEnv) : Prop where
+  attr : ∀ n t nl, sch.attr n = some (t, nl) → (match env.col n with
+    | none => nl = true
+    | some v => hasTy t v)
+  par : ∀ n t, sch.par n = some t → hasTy t (env.par n)
+
+/-- the backend's LIKE agrees with Python's `in` / `startswith` / `endswith` on the patterns `_like` builds for constants
+    (proved for the matcher of Model/SqlText.lean in C06_like_const, C06_like_const_backslash_partial) -/
+def LikeOK (L : LikeFn) (d : Dialect) : Prop :=
+  ∀ k pat s, okPat d pat = true → L.run d (likePattern k pat) (likeEsc pat) s = pyLike k pat s
+
+structure Cx where
+  sch : Schema
+  d : Dialect
+  L : LikeFn
+  env : PEnv
+
+abbrev Cx.ev (C : Cx) (s : Sql) : Option Val := eval C.L C.d (senv C.d C.env) s
+abbrev Cx.evc (C : Cx) (s : Sql) : Option K := evalCond C.L C.d (senv C.d C.env) s
+
+/-- invariant of a value monad for expression `e` -/
+def ValOK (C : Cx) (e : Expr) (ty : Ty) (nl : Bool) (sql : Sql) : Prop :=
+  ∃ v, py C.env e = .val v ∧ (∀ x, v = some x → hasTy ty x) ∧ C.ev sql = some (encV C.d v) ∧
+    ((nl = false ∨ nn C.sch e = true) → v ≠ none)
+
+/-- invariant of a condition for expression `e` -/
+def CondOK (C : Cx) (e : Expr) (sql : Sql) : Prop :=
+  ∃ s, C.evc sql = some s ∧ R s (py C.env e).asK ∧ (exact C.sch e = true → s = (py C.env e).asK)
+
+def MonadOK (C : Cx) (e : Expr) : Monad → Prop
+  | .val _ ty nl sql => ValOK C e ty nl sql
+  | .noneM => False
+  | m => CondOK C e m.getsql
+
+
+/-! ### values used as conditions -/
+
+theorem exact_of_valueSorted (sch : Schema) (e : Expr) (h : valueSorted e = true) : exact sch e = nn sch e := by
+  cases e <;> simp_all [valueSorted, exact]
+
+theorem evc_of_ev (C : Cx) (sql : Sql) (v : Val) (h : C.ev sql = some v) : C.evc sql = toCond C.d v := by
+  simp only [Cx.evc, evalCond]; simp only [Cx.ev] at h; rw [h]; rfl
+
+theorem toCond_encS_bool (d : Dialect) (b : Bool) : toCond d (encS d (.bool b)) = some (K.ofBool b) := by
+  cases h : d.isPg <;> cases b <;> simp [encS, toCond, h, boolInt, K.ofBool]
+
+/-- a bool-typed value monad used directly as a condition -/
+theorem ValOK.cond_bool {C : Cx} {e : Expr} {nl : Bool} {sql : Sql} (hs : valueSorted e = true)
+    (h : ValOK C e .bool nl sql) : CondOK C e sql := by
+  obtain ⟨v, hpy, hty, hev, hnn⟩ := h
+  rw [CondOK, hpy, evc_of_ev C sql _ hev, exact_of_valueSorted _ _ hs]
+  cases v with
+  | none => exact ⟨.unk, rfl, ⟨by simp [PyR.asK], by simp⟩, fun hn => absurd rfl (hnn (Or.inr hn))⟩
+  | some x =>
+    cases x with
+    | bool b => exact ⟨K.ofBool b, by simp [encV, toCond_encS_bool], by simpa [PyR.asK, truthS] using R.refl _, fun _ => by simp [PyR.asK, truthS]⟩
+    | int i => exact absurd (hty _ rfl) (by simp [hasTy])
+    | str s => exact absurd (hty _ rfl) (by simp [hasTy])
+
+theorem ev_value (C : Cx) (l : Lit) : C.ev (.value l) = some (litVal C.d l) := by simp [Cx.ev, eval]
+
+/-- `NumericMixin.nonzero` on an int monad -/
+theorem ValOK.nonzero_int {C : Cx} {e : Expr} {nl : Bool} {sql : Sql} (hs : valueSorted e = true)
+    (h : ValOK C e .int nl sql) : CondOK C e (.cmp .ne sql (.value (.int 0))) := by
+  obtain ⟨v, hpy, hty, hev, hnn⟩ := h
+  simp only [Cx.ev] at hev
+  rw [CondOK, hpy, Cx.evc, evalCond_cmp, hev, exact_of_valueSorted _ _ hs]
+  simp only [eval, litVal]
+  cases v with
+  | none => exact ⟨.unk, rfl, ⟨by simp [PyR.asK], by simp⟩, fun hn => absurd rfl (hnn (Or.inr hn))⟩
+  | some x =>
+    cases x with
+    | int i => exact ⟨K.ofBool (i != 0), by simp [encV, encS, cmpVals, cmpInt], by simpa [PyR.asK, truthS] using R.refl _, fun _ => by simp [PyR.asK, truthS]⟩
+    | bool b => exact absurd (hty _ rfl) (by simp [hasTy])
+    | str s => exact absurd (hty _ rfl) (by simp [hasTy])
+
+/-- `StringMixin.nonzero` -/
+theorem ValOK.nonzero_str {C : Cx} {e : Expr} {nl : Bool} {sql : Sql} (hs : valueSorted e = true)
+    (h : ValOK C e .str nl sql) : CondOK C e (.cmp .ne sql (.value (.str ""))) := by
+  obtain ⟨v, hpy, hty, hev, hnn⟩ := h
+  simp only [Cx.ev] at hev
+  rw [CondOK, hpy, Cx.evc, evalCond_cmp, hev, exact_of_valueSorted _ _ hs]
+  simp only [eval, litVal]
+  cases v with
+  | none => exact ⟨.unk, rfl, ⟨by simp [PyR.asK], by simp⟩, fun hn => absurd rfl (hnn (Or.inr hn))⟩
+  | some x =>
+    cases x with
+    | str t => exact ⟨K.ofBool (t != ""), by simp [encV, encS, cmpVals, cmpStr], by simpa [PyR.asK, truthS] using R.refl _, fun _ => by simp [PyR.asK, truthS]⟩
+    | bool b => exact absurd (hty _ rfl) (by simp [hasTy])
+    | int i => exact absurd (hty _ rfl) (by simp [hasTy])
+
+/-- `if monad.type is not bool: monad = monad.nonzero()` keeps the invariant -/
+theorem condOf_ok {C : Cx} {e : Expr} {m : Monad} (hm : MonadOK C e m) (hs : ∀ c t n s, m = .val c t n s → valueSorted e = true) :
+    CondOK C e (condOf C.d m).getsql := by
+  cases m with
+  | val c t n s =>
+    have hv := hs c t n s rfl
+    cases t with
+    | bool => simpa [condOf, Monad.ty, MTy.ofTy, Monad.getsql] using ValOK.cond_bool hv hm
+    | int => simpa [condOf, Monad.ty, MTy.ofTy, nonzero, Monad.getsql] using ValOK.nonzero_int hv hm
+    | str => simpa [condOf, Monad.ty, MTy.ofTy, nonzero, Monad.getsql] using ValOK.nonzero_str hv hm
+  | noneM => exact absurd hm (by simp [MonadOK])
+  | cmp op l r n => simpa [condOf, Monad.ty, MonadOK] using hm
+  | bexpr s n => simpa [condOf, Monad.ty, MonadOK] using hm
+  | land ops n => simpa [condOf, Monad.ty, MonadOK] using hm
+  | lor ops n => simpa [condOf, Monad.ty, MonadOK] using hm
+  | lnot m' => simpa [condOf, Monad.ty, MonadOK] using hm
+
+theorem condOf_ty (d : Dialect) (m : Monad) (h : m ≠ .noneM) : (condOf d m).ty = .bool := by
+  cases m with
+  | val c t n s => cases t <;> simp [condOf, Monad.ty, MTy.ofTy, nonzero]
+  | noneM => exact absurd rfl h
+  | _ => simp [condOf, Monad.ty]
+
+theorem evalAnd_flat (C : Cx) (m : Monad) : evalAnd C.L C.d (senv C.d C.env) (flatAnd m) = C.evc m.getsql := by
+  cases m <;> simp [flatAnd, Monad.getsql, evalAnd_single, Cx.evc, evalCond_and]
+
+theorem evalOr_flat (C : Cx) (m : Monad) : evalOr C.L C.d (senv C.d C.env) (flatOr m) = C.evc m.getsql := by
+  cases m <;> simp [flatOr, Monad.getsql, evalOr_single, Cx.evc, evalCond_or]
+
+
+@[simp] theorem Val.int_beq_null (i : Int) : (Val.int i == Val.null) = false := by simp
+@[simp] theorem Val.str_beq_null (i : String) : (Val.str i == Val.null) = false := by simp
+@[simp] theorem Val.bool_beq_null (i : Bool) : (Val.bool i == Val.null) = false := by simp
+@[simp] theorem Val.int_bne_null (i : Int) : (Val.int i != Val.null) = true := by simp
+@[simp] theorem Val.str_bne_null (i : String) : (Val.str i != Val.null) = true := by simp
+@[simp] theorem Val.bool_bne_null (i : Bool) : (Val.bool i != Val.null) = true := by simp
+@[simp] theorem toCond_null (d : Dialect) : toCond d .null = some .unk := rfl
+@[simp] theorem K.not_unk : K.unk.not = .unk := rfl
+@[simp] theorem K.not_tt : K.tt.not = .ff := rfl
+@[simp] theorem K.not_ff : K.ff.not = .tt := rfl
+@[simp] theorem K.ofBool_false : K.ofBool false = .ff := rfl
+@[simp] theorem K.ofBool_true : K.ofBool true = .tt := rfl
+@[simp] theorem not_bne' {α} [BEq α] (a b : α) : (!(a != b)) = (a == b) := by simp [bne]
+
+/-! ### negation of a value: `NumericMixin.negate`, `StringMixin.negate` -/
+
+theorem evc_cmp_lit (C : Cx) (op : CmpOp) (sql : Sql) (l : Lit) (va : Val) (h : C.ev sql = some va) :
+    C.evc (.cmp op sql (.value l)) = cmpVals op va (litVal C.d l) := by
+  simp only [Cx.ev] at h; simp only [Cx.evc, evalCond_cmp, h, eval]
+
+theorem evc_isNull (C : Cx) (sql : Sql) (va : Val) (h : C.ev sql = some va) :
+    C.evc (.isNull sql) = some (K.ofBool (va == .null)) := by
+  simp only [Cx.ev] at h; simp only [Cx.evc, evalCond, eval, h, Option.bind_some, toCond_ofCond]
+
+theorem evc_isNotNull (C : Cx) (sql : Sql) (va : Val) (h : C.ev sql = some va) :
+    C.evc (.isNotNull sql) = some (K.ofBool (va != .null)) := by
+  simp only [Cx.ev] at h; simp only [Cx.evc, evalCond, eval, h, Option.bind_some, toCond_ofCond]
+
+theorem evc_or_pair (C : Cx) (x y : Sql) :
+    C.evc (.or (.cons x (.cons y .nil))) = match C.evc x, C.evc y with
+      | some a, some b => some (K.or a b)
+      | _, _ => none := by
+  simp only [Cx.evc, evalCond_or, evalOr_pair]
+
+theorem ev_coalesce_lit (C : Cx) (sql : Sql) (l : Lit) (va : Val) (h : C.ev sql = some va) :
+    C.ev (.coalesce sql (.value l)) = if sameKind va (litVal C.d l) then some (if va == .null then litVal C.d l else va) else none := by
+  simp only [Cx.ev] at h; simp only [Cx.ev, eval, h]
+
+theorem evc_not (C : Cx) (a : Sql) : C.evc (.not a) = (C.evc a).map K.not := evalCond_not _ _ _ _
+
+theorem negate_val {C : Cx} {e : Expr} {cls : MCls} {ty : Ty} {nl : Bool} {sql : Sql} (hs : valueSorted e = true)
+    (h : ValOK C e ty nl sql)
+    (hpg : C.d.isPg = true → ty = .bool → cls ≠ .attr → nn C.sch e = true) :
+    C.evc (negate C.d (.val cls ty nl sql)).getsql = some (py C.env e).asK.not := by
+  obtain ⟨v, hpy, hty, hev, hnn⟩ := h
+  rw [hpy]
+  cases v with
+  | none =>
+    -- the value is missing: the monad is flagged nullable and the expression may be missing
+    have hnl : nl = true := by cases nl <;> simp_all
+    have hn : nn C.sch e = false := by cases hh : nn C.sch e <;> simp_all
+    subst hnl
+    have hev' : C.ev sql = some .null := hev
+    cases ty with
+    | int =>
+      by_cases hc : cls = .attr
+      · simp [negate, hc, Monad.getsql, evc_or_pair, evc_cmp_lit C _ _ _ _ hev', evc_isNull C _ _ hev', cmpVals, PyR.asK, K.or, K.ofBool, K.not]
+      · simp [negate, hc, Monad.getsql, PyR.asK, K.not]
+        rw [evc_cmp_lit C .eq _ (.int 0) (.int 0) (by rw [ev_coalesce_lit C _ _ _ hev']; simp [sameKind, litVal])]
+        simp [cmpVals, litVal, cmpInt, K.ofBool]
+    | str =>
+      by_cases hc : cls = .attr
+      · simp [negate, hc, Monad.getsql, evc_or_pair, evc_cmp_lit C _ _ _ _ hev', evc_isNull C _ _ hev', cmpVals, PyR.asK, K.or, K.ofBool, K.not]
+      · simp [negate, hc, Monad.getsql, PyR.asK, K.not]
+        rw [evc_cmp_lit C .eq _ (.str "") (.str "") (by rw [ev_coalesce_lit C _ _ _ hev']; simp [sameKind, litVal])]
+        simp [cmpVals, litVal, cmpStr, K.ofBool]
+    | bool =>
+      cases hd : C.d.isPg with
+      | false =>
+        by_cases hc : cls = .attr
+        · simp [negate, hd, hc, Monad.getsql, evc_or_pair, evc_cmp_lit C _ _ _ _ hev', evc_isNull C _ _ hev', cmpVals, PyR.asK, K.or, K.ofBool, K.not]
+        · simp [negate, hd, hc, Monad.getsql, PyR.asK, K.not]
+          rw [evc_cmp_lit C .eq _ (.int 0) (.int 0) (by rw [ev_coalesce_lit C _ _ _ hev']; simp [sameKind, litVal])]
+          simp [cmpVals, litVal, cmpInt, K.ofBool]
+      | true =>
+        by_cases hc : cls = .attr
+        · simp [negate, hd, hc, Monad.getsql, evc_or_pair, evc_not, evc_of_ev C _ _ hev', evc_isNull C _ _ hev', toCond, PyR.asK, K.or, K.ofBool, K.not]
+        · exact absurd (hpg hd rfl hc) (by simp [hn])
+  | some x =>
+    have hev' : C.ev sql = some (encS C.d x) := hev
+    have hne : encS C.d x ≠ .null := encS_ne_null _ _
+    cases ty with
+    | int =>
+      cases x with
+      | int i =>
+        have e1 : C.evc (.cmp .eq sql (.value (.int 0))) = some (K.ofBool (i == 0)) := by
+          rw [evc_cmp_lit C _ _ _ _ hev']; simp [encS, litVal, cmpVals, cmpInt]
+        cases nl with
+        | false => simp [negate, Monad.getsql, e1, PyR.asK, truthS]
+        | true =>
+          by_cases hc : cls = .attr
+          · simp [negate, hc, Monad.getsql, evc_or_pair, e1, evc_isNull C _ _ hev', encS, PyR.asK, truthS]
+          · simp [negate, hc, Monad.getsql, PyR.asK, truthS]
+            rw [evc_cmp_lit C .eq _ (.int 0) (.int i) (by rw [ev_coalesce_lit C _ _ _ hev']; simp [sameKind, litVal, encS])]
+            simp [cmpVals, litVal, cmpInt]
+      | bool b => exact absurd (hty _ rfl) (by simp [hasTy])
+      | str t => exact absurd (hty _ rfl) (by simp [hasTy])
+    | str =>
+      cases x with
+      | str t =>
+        have e1 : C.evc (.cmp .eq sql (.value (.str ""))) = some (K.ofBool (t == "")) := by
+          rw [evc_cmp_lit C _ _ _ _ hev']; simp [encS, litVal, cmpVals, cmpStr]
+        cases nl with
+        | false => simp [negate, Monad.getsql, e1, PyR.asK, truthS]
+        | true =>
+          by_cases hc : cls = .attr
+          · simp [negate, hc, Monad.getsql, evc_or_pair, e1, evc_isNull C _ _ hev', encS, PyR.asK, truthS]
+          · simp [negate, hc, Monad.getsql, PyR.asK, truthS]
+            rw [evc_cmp_lit C .eq _ (.str "") (.str t) (by rw [ev_coalesce_lit C _ _ _ hev']; simp [sameKind, litVal, encS])]
+            simp [cmpVals, litVal, cmpStr]
+      | bool b => exact absurd (hty _ rfl) (by simp [hasTy])
+      | int i => exact absurd (hty _ rfl) (by simp [hasTy])
+    | bool =>
+      cases x with
+      | bool b =>
+        cases hd : C.d.isPg with
+        | false =>
+          have hev2 : C.ev sql = some (.int (boolInt b)) := by simpa [encS, hd] using hev'
+          have e1 : C.evc (.cmp .eq sql (.value (.int 0))) = some (K.ofBool (!b)) := by
+            rw [evc_cmp_lit C _ _ _ _ hev2]; cases b <;> simp [litVal, cmpVals, cmpInt, boolInt]
+          cases nl with
+          | false => simp [negate, hd, Monad.getsql, e1, PyR.asK, truthS]
+          | true =>
+            by_cases hc : cls = .attr
+            · simp [negate, hd, hc, Monad.getsql, evc_or_pair, e1, evc_isNull C _ _ hev2, PyR.asK, truthS]
+            · simp [negate, hd, hc, Monad.getsql, PyR.asK, truthS]
+              rw [evc_cmp_lit C .eq _ (.int 0) (.int (boolInt b)) (by rw [ev_coalesce_lit C _ _ _ hev2]; simp [sameKind, litVal])]
+              cases b <;> simp [cmpVals, litVal, cmpInt, boolInt]
+        | true =>
+          have hev2 : C.ev sql = some (.bool b) := by simpa [encS, hd] using hev'
+          have e1 : C.evc (.not sql) = some (K.ofBool (!b)) := by
+            rw [evc_not, evc_of_ev C _ _ hev2]; simp [toCond, hd]
+          cases nl with
+          | false => simp [negate, hd, Monad.getsql, e1, PyR.asK, truthS]
+          | true =>
+            by_cases hc : cls = .attr
+            · simp [negate, hd, hc, Monad.getsql, evc_or_pair, e1, evc_isNull C _ _ hev2, PyR.asK, truthS]
+            · simp [negate, hd, hc, Monad.getsql, PyR.asK, truthS]
+              rw [evc_not, evc_of_ev C _ (.bool b) (by rw [ev_coalesce_lit C _ _ _ hev2]; simp [sameKind, litVal, hd])]
+              simp [toCond, hd]
+      | int i => exact absurd (hty _ rfl) (by simp [hasTy])
+      | str t => exact absurd (hty _ rfl) (by simp [hasTy])
+
+
+/-! ### negation of a condition: `CmpMonad.negate`, `BoolExprMonad.negate`, `NotMonad` -/
+
+def CmpOp.negate : CmpOp → CmpOp
+  | .eq => .ne | .ne => .eq | .lt => .ge | .ge => .lt | .le => .gt | .gt => .le
+
+theorem cmpInt_negate (o : CmpOp) (a b : Int) : cmpInt o.negate a b = !cmpInt o a b := by
+  cases o <;> simp [CmpOp.negate, cmpInt, bne] <;> (rw [Bool.eq_iff_iff]; simp; try omega)
+
+theorem cmpStr_negate (o : CmpOp) (a b : String) : cmpStr o.negate a b = !cmpStr o a b := by
+  cases o <;> simp [CmpOp.negate, cmpStr, bne]
+
+theorem cmpVals_negate (o : CmpOp) (a b : Val) : cmpVals o.negate a b = (cmpVals o a b).map K.not := by
+  cases a <;> cases b <;> simp [cmpVals, cmpInt_negate, cmpStr_negate]
+
+theorem evc_cmp_negate (C : Cx) (o : CmpOp) (l r : Sql) : C.evc (.cmp o.negate l r) = (C.evc (.cmp o l r)).map K.not := by
+  simp only [Cx.evc, evalCond_cmp]
+  cases eval C.L C.d (senv C.d C.env) l <;> cases eval C.L C.d (senv C.d C.env) r <;> simp [cmpVals_negate]
+
+theorem evc_isNotNull_eq (C : Cx) (l : Sql) : C.evc (.isNotNull l) = (C.evc (.isNull l)).map K.not := by
+  simp only [Cx.evc, evalCond, eval]
+  cases eval C.L C.d (senv C.d C.env) l <;> simp [bne]
+
+theorem evc_isNull_eq (C : Cx) (l : Sql) : C.evc (.isNull l) = (C.evc (.isNotNull l)).map K.not := by
+  simp only [Cx.evc, evalCond, eval]
+  cases eval C.L C.d (senv C.d C.env) l <;> simp [bne]
+
+theorem evc_cmpSql_negate (C : Cx) (op : POp) (l r : Sql) :
+    C.evc (cmpSql op.negate l r) = (C.evc (cmpSql op l r)).map K.not := by
+  cases op
+  · exact evc_cmp_negate C .eq l r
+  · exact evc_cmp_negate C .ne l r
+  · exact evc_cmp_negate C .lt l r
+  · exact evc_cmp_negate C .le l r
+  · exact evc_cmp_negate C .gt l r
+  · exact evc_cmp_negate C .ge l r
+  · exact evc_isNotNull_eq C l
+  · exact evc_isNull_eq C l
+
+theorem evc_inList_negate (C : Cx) (ng : Bool) (a : Sql) (items : SqlList) :
+    C.evc (.inList (!ng) a items) = (C.evc (.inList ng a items)).map K.not := by
+  simp only [Cx.evc, evalCond, eval]
+  cases eval C.L C.d (senv C.d C.env) a <;> simp
+  cases evalVals C.L C.d (senv C.d C.env) items <;> simp
+  rename_i va vs
+  cases List.mapM (cmpVals CmpOp.eq va) vs <;> simp
+  cases ng <;> simp
+
+theorem evc_like_negate (C : Cx) (ng : Bool) (a : Sql) (p : String) (e : Bool) :
+    C.evc (.like (!ng) a p e) = (C.evc (.like ng a p e)).map K.not := by
+  simp only [Cx.evc, evalCond, eval]
+  cases h : eval C.L C.d (senv C.d C.env) a with
+  | none => simp
+  | some v => cases v <;> simp <;> cases ng <;> simp
+
+/-- monads of conditions (everything but value monads and `NoneMonad`) -/
+def Monad.isCond : Monad → Bool
+  | .val _ _ _ _ => false
+  | .noneM => false
+  | .lnot m => m.isCond
+  | _ => true
+
+theorem negate_cond (C : Cx) (m : Monad) (hm : m.isCond = true) :
+    C.evc (negate C.d m).getsql = (C.evc m.getsql).map K.not ∧ (negate C.d m).isCond = true := by
+  cases m with
+  | val c t n s => simp [Monad.isCond] at hm
+  | noneM => simp [Monad.isCond] at hm
+  | cmp op l r n => exact ⟨by simpa [negate, Monad.getsql] using evc_cmpSql_negate C op l r, rfl⟩
+  | bexpr s n =>
+    cases s <;> simp [negate, Monad.getsql, evc_not, Monad.isCond]
+    · exact evc_isNotNull_eq C _
+    · exact evc_isNull_eq C _
+    · exact evc_inList_negate C _ _ _
+    · exact evc_like_negate C _ _ _ _
+  | land ops n => simp [negate, Monad.getsql, evc_not, Monad.isCond]
+  | lor ops n => simp [negate, Monad.getsql, evc_not, Monad.isCond]
+  | lnot m' =>
+    simp only [Monad.isCond] at hm
+    simp [negate, Monad.getsql, evc_not, hm]
+    cases C.evc m'.getsql <;> simp
+
 end PonyVerif.Model.Q
